@@ -178,3 +178,139 @@ def r4(ctx):
     ent = [s for s in walk_no_nested(ld.node) if isinstance(s, ast.Assign) and u(s.targets[0]) == "entry"]
     ctx.check(len(ent) == 1 and u(ent[0].value) == "asdict(preprocessor_config)", "config:load_database:entry-from-config", "each entry must be the parsed configuration as a dict", ld.loc())
     ctx.floor(2 + 4 + 3)
+
+
+# ----------------------------------------------------------------------
+# R5: the option table checked against a catalogue of real compiler flags, with the standard
+# library's argparse as the model of itself (the registrations are EXTRACTED from the source and the
+# TOML files; no repository code runs).
+
+CATALOGUE = {
+    # flag vector -> (expected defines, expected include_paths, expected include_files) contributed by it
+    "gcc": [
+        ["-g"], ["-g3"], ["-ggdb"], ["-O"], ["-O2"], ["-O3"], ["-Ofast"], ["-Wall"], ["-Wextra"], ["-Werror"], ["-std=c++17"], ["-MF", "x.d"], ["-MD"], ["-MMD"],
+        ["-MT", "x.o"], ["-MP"], ["-fPIC"], ["-fopenmp"], ["-march=native"], ["-mavx"], ["-mavx2"], ["-mavx512f"], ["-msse4.2"], ["-mfma"], ["-pthread"], ["-pipe"],
+        ["-c"], ["-o", "x.o"], ["-x", "c++"], ["-shared"], ["-static"], ["-lm"], ["-Ldir"], ["-w"], ["-v"], ["-E"], ["-S"], ["-P"], ["-C"], ["-H"], ["-M"], ["-MM"],
+        ["-UX"], ["-nostdinc"], ["-idirafter", "d"], ["-iquote", "d"], ["-fno-exceptions"], ["-funroll-loops"], ["-ffast-math"], ["-flto"], ["-Wno-unused"], ["-fvisibility=hidden"],
+        ["-DX"], ["-D", "X"], ["-DX=1"], ["-DX=a b"], ["-Iinc"], ["-I", "inc"], ["-isystem", "sys"], ["-isystemsys"], ["-include", "f.h"], ["-includef.h"],
+        ["-D-X"], ["-I-weird"], ["--sysroot=/x"], ["-Wl,-rpath,/x"], ["-fdiagnostics-color=always"], ["-gdwarf-4"], ["-gsplit-dwarf"], ["-coverage"], ["-fcf-protection"],
+    ],
+    "clang": [["-fsycl-is-device"], ["-fcolor-diagnostics"], ["-fsycl-unnamed-lambda"], ["-Weverything"], ["-g3"], ["-O2"], ["-cc1"], ["-fPIC"]],
+    "icx": [["-fsycl"], ["-fsycl-targets=spir64"], ["-fsycl-unnamed-lambda"], ["-qopenmp"], ["-fopenmp"], ["-xHost"], ["-g3"], ["-O2"], ["-fiopenmp"], ["-fopenmp-targets=spir64"]],
+    "nvcc": [["-ccbin", "g++"], ["-gencode", "arch=compute_70,code=sm_70"], ["-arch=sm_70"], ["--gpu-architecture=sm_80"], ["-Xcompiler", "-fPIC"], ["-lineinfo"], ["-rdc=true"], ["-dc"],
+             ["-dlink"], ["-std=c++17"], ["-O3"], ["-g"], ["-G"], ["--expt-relaxed-constexpr"], ["-use_fast_math"], ["-maxrregcount=64"], ["-cudart", "static"]],
+}
+EXPECT = {
+    ("-DX",): (["X"], [], []), ("-D", "X"): (["X"], [], []), ("-DX=1",): (["X=1"], [], []), ("-DX=a b",): (["X=a b"], [], []), ("-D-X",): (["-X"], [], []),
+    ("-Iinc",): ([], ["inc"], []), ("-I", "inc"): ([], ["inc"], []), ("-I-weird",): ([], ["-weird"], []),
+    ("-isystem", "sys"): ([], ["sys"], []), ("-isystemsys",): ([], ["sys"], []),
+    ("-include", "f.h"): ([], [], ["f.h"]), ("-includef.h",): ([], [], ["f.h"]),
+}
+
+
+def _model_parser(f, extra):
+    import argparse
+
+    regs = _registrations(f)
+    p = argparse.ArgumentParser(add_help=False, exit_on_error=False, allow_abbrev=False)
+    ctor = [c for c in f.calls() if callee(c) == "argparse.ArgumentParser"]
+    if ctor:
+        kw = {}
+        for k in ctor[0].keywords:
+            try:
+                kw[k.arg] = ast.literal_eval(k.value)
+            except Exception:
+                pass
+        try:
+            p = argparse.ArgumentParser(**kw)
+        except TypeError:
+            pass
+    for flags, kw, c in regs:
+        if not flags:
+            continue  # the generic `add_argument(*option["flags"], ...)` for compiler-specific options (modelled via `extra`)
+        args = {}
+        for k, v in kw.items():
+            try:
+                args[k] = ast.literal_eval(v)
+            except Exception:
+                pass
+        if args.get("action") == "store_const" and "const" not in args:
+            args["const"] = None
+        try:
+            p.add_argument(*flags, **args)
+        except Exception as e:
+            raise AnalysisError(f"argparse model: cannot register {flags}: {e}")
+    for opt in extra:
+        a = {"dest": "x_" + opt.get("dest", "d")}
+        act = opt.get("action")
+        if act == "append_const":
+            a.update(action="append_const", const=opt.get("const"))
+        elif act in ("store_split", "extend_match", "store", None):
+            a.update(action="append")
+        elif act == "append":
+            a.update(action="append")
+        elif act in ("store_const", "store_true", "store_false"):
+            a.update(action="store_true")
+        else:
+            a.update(action="append")
+        try:
+            p.add_argument(*opt["flags"], **a)
+        except Exception as e:
+            raise AnalysisError(f"argparse model: cannot register {opt['flags']}: {e}")
+    return p
+
+
+@rule("C11.R5", "the option table against a catalogue of real compiler flags: recognised options are extracted, everything else is ignored, nothing aborts")
+def r5(ctx):
+    import argparse
+
+    repo = ctx.repo
+    f = _parse_args(repo)
+    from .c12 import _compiler_defs
+
+    defs = _compiler_defs(repo)
+    compilers = {}
+    for fname, t in defs.items():
+        for cname, c in t.get("compiler", {}).items():
+            compilers[cname] = c
+    n = 0
+    for comp, vectors in CATALOGUE.items():
+        c = compilers.get(comp, {})
+        seen = 0
+        while "alias_of" in c and seen < 5:
+            c = compilers.get(c["alias_of"], {})
+            seen += 1
+        extra = c.get("parser", [])
+        items = list(vectors) + ([] if comp == "gcc" else [])
+        for vec in items:
+            n += 1
+            key = f"config:ArgumentParser.parse_args:catalogue:{comp}:{' '.join(vec)}"
+            argv = ["-DA=1"] + list(vec) + ["-Ilast", "a.c"] + list(c.get("options", []))
+            exp = EXPECT.get(tuple(vec), ([], [], []))
+            want_d = ["A=1"] + exp[0] + [o[2:] for o in c.get("options", []) if o.startswith("-D")]
+            want_i = exp[1] + ["last"]
+            want_f = exp[2]
+            p = _model_parser(f, extra)
+            ns = argparse.Namespace(defines=[], include_paths=[], include_files=[])
+            try:
+                import contextlib, io
+
+                with contextlib.redirect_stderr(io.StringIO()):
+                    got, unknown = p.parse_known_args(argv, ns)
+            except (argparse.ArgumentError, SystemExit) as e:
+                ctx.violation(key + ":aborts", f"`{comp} {' '.join(vec)}`: argparse rejects the command line ({type(e).__name__}: {str(e)[:80]}) - nothing catches it, the analysis aborts", f.loc())
+                continue
+            d, i, fl = list(got.defines or []), list(got.include_paths or []), list(got.include_files or [])
+            if (d, i, fl) != (want_d, want_i, want_f):
+                ctx.violation(key + ":extraction", f"`{comp} {' '.join(vec)}` yields defines={d} include_paths={i} include_files={fl}; expected {want_d} / {want_i} / {want_f}", f.loc())
+            else:
+                ctx.ok(key)
+    ctx.stats["catalogue_vectors"] = n
+    ctx.floor(60)
+
+
+@rule("C11.R6", "both entry forms are accepted by the schema and become one command each (= C13.R7)")
+def r6(ctx):
+    from .c13 import r7 as c13r7
+
+    c13r7(ctx)
